@@ -7,7 +7,8 @@ namespace Pelite.Relocs
 
 /-- Termination with the work bound the property asks for: at most `len / 8` blocks. -/
 theorem C14_blocks_count (data : Bytes) : (blocks data).length ≤ data.size / 8 := by
-  sorry
+  have := blocksFrom_length_le data 0
+  simpa [blocks] using this
 
 /-- The blocks are consecutive: the first starts at 0 and each next one starts where the previous
 one ends, i.e. `min(align4(max(SizeOfBlock, 8)), remaining)` bytes further. -/
@@ -15,7 +16,8 @@ theorem C14_blocks_consecutive (data : Bytes) (off : Nat) (b : Block) (rest : Li
     (h : blocksFrom data off = b :: rest) :
     b.off = off ∧ off + 8 ≤ data.size ∧ b.va = le32 data off ∧ b.size = le32 data (off + 4) ∧
     rest = blocksFrom data (off + step b.size (data.size - off)) := by
-  sorry
+  obtain ⟨hge, rfl, hrest⟩ := blocksFrom_cons_inv h
+  exact ⟨rfl, hge, rfl, rfl, hrest⟩
 
 /-- Entry count: `(SizeOfBlock - 8) / 2` entries, clamped to the directory; a block's header and
 entries lie inside the part of the directory the iterator skips for it or inside the directory's
@@ -26,16 +28,96 @@ theorem C14_block_extent (data : Bytes) (off : Nat) (b : Block) (rest : List Blo
     b.off + 8 + 2 * b.nwords ≤ data.size ∧
     (b.size % 4 = 0 → 8 ≤ b.size → b.size ≤ data.size - off →
         step b.size (data.size - off) = b.size ∧ b.off + 8 + 2 * b.nwords = off + b.size) := by
-  sorry
+  obtain ⟨hge, rfl, -⟩ := blocksFrom_cons_inv h
+  have hlt := le32_lt data (off + 4)
+  refine ⟨rfl, ?_, ?_⟩
+  · simp only [blockAt]; omega
+  · intro h4 h8 hle
+    simp only [blockAt] at h4 h8 hle ⊢
+    exact ⟨step_eq_size hlt h4 h8 hle, by omega⟩
 
 /-- C01 for this module: every reference a block hands out lies inside the directory and is
 aligned for its type, for every 4-aligned placement of the directory. -/
 theorem C14_refs_ok (img : Img) (hb : img.base % 4 = 0) (b : Block) (hmem : b ∈ blocks img.bytes) :
     RefOK img b.imageRef ∧ RefOK img b.wordsRef := by
-  sorry
+  obtain ⟨o, -, ho4, ho8, rfl⟩ := mem_blocksFrom (off := 0) (by rfl) hmem
+  simp only [RefOK, Block.imageRef, Block.wordsRef, blockAt]
+  omega
+
+/-! ### `build`
+
+`build` stores `SizeOfBlock` as `size as u32` (model: `u32le size` keeps the low 32 bits).  When one
+page receives 2147483643 (= 2^31 - 5) or more entries, `align4 (8 + 2 n) ≥ 2^32` and the stored
+size is wrong, so the two statements as given (`C14_build_blocks_wellformed`, `C14_build_roundtrip`)
+are FALSE for such inputs; the kernel-checked refutations are `C14_build_blocks_wellformed_unbounded_false`
+and `C14_build_roundtrip_unbounded_false` below (input: 2147483644 copies of `(0, 1)`; the first
+header then reads `SizeOfBlock = 0`).  They are proved here under `Fits ps`, i.e.
+`ps.length < 2147483643 ∨ (buildList ps).length < 2^32`, and in the two special cases. -/
+
+/-- `build` well-formedness, for every input whose blocks fit the `u32` size field. -/
+theorem C14_build_blocks_wellformed_of_fits (ps : List (Nat × Nat)) (hfit : Fits ps)
+    (hps : ∀ p ∈ ps, p.1 < 4294967296)
+    (b : Block) (hmem : b ∈ blocks (build ps)) :
+    b.va % 4096 = 0 ∧ b.size % 4 = 0 ∧ 12 ≤ b.size ∧ b.off + b.size ≤ (build ps).size := by
+  rw [blocks_build] at hmem
+  have := built_blocks_wf ps [] hfit hps b hmem
+  simpa [build] using this
+
+/-- **Round trip**, for every input whose blocks fit the `u32` size field. -/
+theorem C14_build_roundtrip_of_fits (ps : List (Nat × Nat)) (hfit : Fits ps)
+    (hps : ∀ p ∈ ps, p.1 < 4294967296 ∧ 1 ≤ p.2 ∧ p.2 ≤ 15) :
+    flat (build ps) = ps := by
+  have := built_flat ps [] hfit hps
+  simpa [flat, blocks, build] using this
+
+/-- fewer than 2^31 - 5 entries in total -/
+theorem C14_build_blocks_wellformed_of_length (ps : List (Nat × Nat)) (hlen : ps.length < 2147483643)
+    (hps : ∀ p ∈ ps, p.1 < 4294967296)
+    (b : Block) (hmem : b ∈ blocks (build ps)) :
+    b.va % 4096 = 0 ∧ b.size % 4 = 0 ∧ 12 ≤ b.size ∧ b.off + b.size ≤ (build ps).size :=
+  C14_build_blocks_wellformed_of_fits ps (Or.inl hlen) hps b hmem
+
+theorem C14_build_roundtrip_of_length (ps : List (Nat × Nat)) (hlen : ps.length < 2147483643)
+    (hps : ∀ p ∈ ps, p.1 < 4294967296 ∧ 1 ≤ p.2 ∧ p.2 ≤ 15) :
+    flat (build ps) = ps :=
+  C14_build_roundtrip_of_fits ps (Or.inl hlen) hps
+
+/-- the built directory is smaller than 4 GiB (what the `u32` `Size` of a data directory can say) -/
+theorem C14_build_blocks_wellformed_of_size (ps : List (Nat × Nat)) (hsz : (build ps).size < 4294967296)
+    (hps : ∀ p ∈ ps, p.1 < 4294967296)
+    (b : Block) (hmem : b ∈ blocks (build ps)) :
+    b.va % 4096 = 0 ∧ b.size % 4 = 0 ∧ 12 ≤ b.size ∧ b.off + b.size ≤ (build ps).size :=
+  C14_build_blocks_wellformed_of_fits ps (Or.inr (by simpa [build] using hsz)) hps b hmem
+
+theorem C14_build_roundtrip_of_size (ps : List (Nat × Nat)) (hsz : (build ps).size < 4294967296)
+    (hps : ∀ p ∈ ps, p.1 < 4294967296 ∧ 1 ≤ p.2 ∧ p.2 ≤ 15) :
+    flat (build ps) = ps :=
+  C14_build_roundtrip_of_fits ps (Or.inr (by simpa [build] using hsz)) hps
+
+/-- The unbounded well-formedness statement is false: 2147483644 entries `(0, 1)` give a first
+block with `SizeOfBlock = 0`. -/
+theorem C14_build_blocks_wellformed_unbounded_false :
+    ¬ ∀ (ps : List (Nat × Nat)), (∀ p ∈ ps, p.1 < 4294967296) →
+      ∀ b ∈ blocks (build ps),
+        b.va % 4096 = 0 ∧ b.size % 4 = 0 ∧ 12 ≤ b.size ∧ b.off + b.size ≤ (build ps).size := by
+  intro h
+  obtain ⟨b, hb, hb0⟩ := huge_not_wellformed 2147483643 rfl
+  have := h _ (fun p hp => (huge_input_ok 2147483643 p hp).1) b hb
+  omega
+
+/-- The unbounded round-trip statement is false for the same input: the first pair read back is
+`(0x10001000, 1)`, not `(0, 1)`. -/
+theorem C14_build_roundtrip_unbounded_false :
+    ¬ ∀ (ps : List (Nat × Nat)), (∀ p ∈ ps, p.1 < 4294967296 ∧ 1 ≤ p.2 ∧ p.2 ≤ 15) →
+      flat (build ps) = ps := by
+  intro h
+  exact huge_not_roundtrip 2147483643 rfl (h _ (huge_input_ok 2147483643))
 
 /-- Every block that `build` emits is page-aligned, has a size that is a multiple of four and at
 least 12, and the blocks tile the output exactly. -/
+-- FALSE AS STATED (see `C14_build_blocks_wellformed_unbounded_false`): counterexample
+-- `ps = List.replicate 2147483644 (0, 1)`; `build` stores `SizeOfBlock = 2^32 as u32 = 0`.
+-- Statement left untouched on purpose; the provable versions are `…_of_fits/_of_length/_of_size`.
 theorem C14_build_blocks_wellformed (ps : List (Nat × Nat)) (hps : ∀ p ∈ ps, p.1 < 4294967296)
     (b : Block) (hmem : b ∈ blocks (build ps)) :
     b.va % 4096 = 0 ∧ b.size % 4 = 0 ∧ 12 ≤ b.size ∧ b.off + b.size ≤ (build ps).size := by
@@ -43,6 +125,9 @@ theorem C14_build_blocks_wellformed (ps : List (Nat × Nat)) (hps : ∀ p ∈ ps
 
 /-- **Round trip.**  For every list of (rva, type) pairs with types 1..15 — sortedness is not
 needed — parsing what `build` produced yields exactly those pairs, in order. -/
+-- FALSE AS STATED (see `C14_build_roundtrip_unbounded_false`): same counterexample, the parse
+-- yields `(0x10001000, 1)` first.  Statement left untouched on purpose; the provable versions are
+-- `C14_build_roundtrip_of_fits/_of_length/_of_size`.
 theorem C14_build_roundtrip (ps : List (Nat × Nat))
     (hps : ∀ p ∈ ps, p.1 < 4294967296 ∧ 1 ≤ p.2 ∧ p.2 ≤ 15) :
     flat (build ps) = ps := by
